@@ -180,6 +180,7 @@ type sessReq struct {
 	Sess    int    `json:"sess"`              // index into the model's session list (mod/del/reportresp); -1 = unknown SEID
 	Label   string `json:"label,omitempty"`   // alphabet entry name (for samples / signatures)
 	RawType uint8  `json:"rawtype,omitempty"` // kind "raw": message type of a response-type / unsupported message
+	FailAt  int    `json:"failat,omitempty"`  // UP4: the (FailAt-1)-th Write issued by this request fails (0 = none)
 }
 
 type stepCtx struct {
@@ -273,6 +274,25 @@ func (s *sessSys) exec(r *sessReq) *stepCtx {
 			req.SEID = vUnknownSEID
 		}
 	}
+	if r.Kind == "shutdown" {
+		// the common tail of read timeout, heartbeat failure and stop: the real Shutdown of the association
+		ctx.msg = &vMsg{}
+		if s.in.fb != nil {
+			ctx.cmd0 = s.in.fb.ncommands()
+		}
+		ctx.pframe, ctx.pmsg = vCatch(func() { c.pc.Shutdown() })
+		if ctx.pframe != "" {
+			s.poisoned = true
+		}
+		for _, x := range s.m.live(r.Conn) {
+			x.Dead = true
+		}
+		s.m.Gone[r.Conn] = true
+		for _, o := range s.oracles {
+			o(ctx)
+		}
+		return ctx
+	}
 	if r.Kind == "raw" {
 		ctx.msg = &vMsg{Type: r.RawType, Seq: req.Seq}
 		switch r.RawType {
@@ -294,6 +314,12 @@ func (s *sessSys) exec(r *sessReq) *stepCtx {
 	}
 	if s.preStep != nil {
 		s.preStep(s, r)
+	}
+	if r.FailAt > 0 && s.in.p4 != nil {
+		fp := s.in.p4.fp
+		fp.mu.Lock()
+		fp.faults[fp.nwrite+r.FailAt-1] = fpFault{Shape: "p4err"}
+		fp.mu.Unlock()
 	}
 	ctx.out, ctx.pframe, ctx.pmsg = s.in.inject(r.Conn, ctx.msg.marshal())
 	if ctx.pframe != "" {
@@ -461,7 +487,15 @@ func (s *sessSys) key() string {
 	}
 	if p := s.in.u.ippool; p != nil {
 		p.mu.Lock()
-		fmt.Fprintf(&b, "pool free=%v inv=", p.freePool)
+		// The order of the free list depends on map iteration when an association with several sessions ends (Shutdown
+		// ranges over a sync.Map); it only decides which literal address a later session gets, and every oracle is invariant
+		// under renaming of addresses, so the key keeps the free set, not the order.
+		free := make([]string, 0, len(p.freePool))
+		for _, ip := range p.freePool {
+			free = append(free, ip.String())
+		}
+		sort.Strings(free)
+		fmt.Fprintf(&b, "pool free=%v inv=", free)
 		var inv []string
 		for k, v := range p.inventory {
 			inv = append(inv, rn.S(k)+">"+v.String())
